@@ -1522,10 +1522,17 @@ func ctxRootsSeen(f *ssa.Function, v ssa.Value, depth int, out map[string]bool, 
 
 func r166(c *Ctx, r *R) {
 	senders := []string{"ipfshttp.Connector).postCtx", "ipfshttp.Connector).doPostCtx", "ipfshttp.Connector).pinProgress", "ipfshttp.Connector).pinUpdate", "net/http.NewRequestWithContext", "net/http.Request).WithContext"}
-	for _, name := range []string{"Connector.Pin", "Connector.Unpin", "Connector.pinProgress", "Connector.pinUpdate"} {
+	for _, name := range []string{"Connector.Pin", "Connector.Unpin", "Connector.pinProgress", "Connector.pinUpdate", "Connector.postCtx", "Connector.doPostCtx"} {
 		f := c.fn(r, "ipfsconn/ipfshttp", name)
 		if f == nil {
 			continue
+		}
+		if name == "Connector.doPostCtx" {
+			// the helper every request goes through must itself attach
+			// the context it is given
+			if len(findCalls(f, false, "net/http.NewRequestWithContext", "net/http.Request).WithContext")) == 0 {
+				r.Bad(name+":attaches-context", f.Pos(), "doPostCtx builds the request without attaching any context: no request to the daemon can be cancelled")
+			}
 		}
 		withAnon(f, func(g *ssa.Function) {
 			for _, ci := range findCalls(g, false, senders...) {
@@ -2656,7 +2663,7 @@ func r0910(c *Ctx, r *R) {
 			if !isNilConst(lf.Val) {
 				continue
 			}
-			ok := lf.GuardedBy(func(g Guard) bool {
+			absent := func(g Guard) bool {
 				if l, idx := mapLookupOf(g.Cond); l != nil && idx == 1 && !g.Branch {
 					return true // not found in byName / byPeer
 				}
@@ -2664,7 +2671,15 @@ func r0910(c *Ctx, r *R) {
 					cc, _ := originCall(v)
 					return cc != nil && nameMatches(callName(cc.Common()), "metrics.Window).Latest")
 				})
-			})
+			}
+			// (directly, or as the `not found` answer of a lookup helper
+			// every false answer of which is a failed lookup)
+			ok := false
+			for _, g := range lf.Guards() {
+				if establishesX(g, absent, nil) {
+					ok = true
+				}
+			}
 			r.Check(ok, "peerlatest:nil-only-when-absent", lf.Pos, "nil only when no metric is stored for the pair", "PeerLatest answers nil for a pair that has a stored latest metric (a test other than 'no window' / 'empty window'): the failure detector takes nil for 'failed', so a peer whose latest metric is unexpired is alerted and its metrics are dropped")
 		}
 	}
@@ -2743,37 +2758,324 @@ func r0610(c *Ctx, r *R) {
 	if f == nil {
 		return
 	}
+	// the loop that builds the listing: in GetAll or in a helper of the
+	// package it hands the operations to (also one shared with Filter)
 	n := 0
-	for _, ci := range callsIn(f) {
-		if callName(ci.Common()) != "builtin.append" {
-			continue
-		}
-		n++
-		// the only test above the append is the loop's own condition
-		ok := true
-		for _, g := range guardsOf(ci.Block()) {
-			if g.Derived {
+	var fns []*ssa.Function
+	for g := range ssaClosure(f) {
+		fns = append(fns, g)
+	}
+	sort.Slice(fns, func(i, j int) bool { return fns[i].Pos() < fns[j].Pos() })
+	for _, g := range fns {
+		for _, ci := range callsIn(g) {
+			if callName(ci.Common()) != "builtin.append" || !strings.HasSuffix(ci.Common().Args[0].Type().String(), "api.PinInfo") {
 				continue
 			}
-			if _, isNext := stripLocal(g.Cond).(*ssa.Extract); isNext {
-				if ex := stripLocal(g.Cond).(*ssa.Extract); ex.Index == 0 {
+			n++
+			// the only test above the append is the loop's own condition
+			ok := true
+			for _, gd := range guardsOf(ci.Block()) {
+				if gd.Derived || gd.If == nil || gd.If.Parent() != g {
+					continue
+				}
+				if ex, isEx := stripLocal(gd.Cond).(*ssa.Extract); isEx && ex.Index == 0 {
 					if _, isN := ex.Tuple.(*ssa.Next); isN {
-						continue
+						continue // range over a map
 					}
 				}
+				if b, isB := gd.Cond.(*ssa.BinOp); isB && b.Op == token.LSS {
+					continue // i < len(...)
+				}
+				ok = false
 			}
-			if x, op, _, isCmp := cmpIntConst(g.Cond); isCmp && op == token.LSS {
-				_ = x
-				continue // index loop
-			}
-			if b, isB := g.Cond.(*ssa.BinOp); isB && b.Op == token.LSS {
-				continue // i < len(...)
-			}
-			ok = false
+			r.Check(ok, "getall:every-operation", ci.Pos(), "every tracked operation is listed", "GetAll skips some tracked operations (a test inside the loop): operations that failed are kept cancelled in the tracker and are known nowhere else - a failed unpin disappears from StatusAll and is never retried by RecoverAll")
 		}
-		r.Check(ok, "getall:every-operation", ci.Pos(), "every tracked operation is listed", "GetAll skips some tracked operations (a test inside the loop): operations that failed are kept cancelled in the tracker and are known nowhere else - a failed unpin disappears from StatusAll and is never retried by RecoverAll")
 	}
 	if n == 0 {
 		r.Und("getall", f.Pos(), "GetAll appends nothing: shape not recognised")
 	}
+}
+
+func init() {
+	register(&Rule{ID: "R10.8", Props: []string{"C10"}, Floor: 1, Title: "the expiry sweep visits every pin: no exit from StateSync's loop depends on the outcome of one unpin", Run: r108})
+	register(&Rule{ID: "R11.8", Props: []string{"C11", "C08"}, Floor: 4, Title: "the client's pin-type filter can express every pin type the server filters by: the table Allocations turns into the filter query lists every storable PinType", Run: r118})
+	register(&Rule{ID: "R13.10", Props: []string{"C13", "C12", "C08"}, Floor: 6, Title: "import parameters travel unchanged: every AddParams field is restored by AddParamsFromQuery, and newIpfsAdder copies each importer option from the request's field of the same name (nothing is re-derived after the request was parsed)", Run: r1310})
+	register(&Rule{ID: "R15.14", Props: []string{"C15"}, Floor: 1, Title: "a loop over components keeps every error: where a loader's error is assigned inside a loop and returned after it, the loop is left on the first error (otherwise a later success overwrites it and a refused setting is silently replaced by its default)", Run: r1514})
+	register(&Rule{ID: "R17.8", Props: []string{"C17", "C01"}, Floor: 3, Title: "raft operations are attempted at least once: the retry loops of commit, AddPeer and RmPeer run for i <= CommitRetries (with `<` a configuration with commit_retries 0 does nothing and reports success)", Run: r178})
+}
+
+func r108(c *Ctx, r *R) {
+	f := c.fn(r, "", "Cluster.StateSync")
+	if f == nil {
+		return
+	}
+	n := 0
+	for _, dc := range findCallsDeep(f, ModPath+".Cluster).Unpin") {
+		n++
+		bad, inLoop := sweepCanStop(dc.Inner)
+		r.Check(inLoop && !bad, "expiry-sweep:continues", dc.Inner.Pos(), "an expired pin that cannot be unpinned does not stop the sweep", "the expiry sweep stops at the first expired pin it cannot unpin (a return or break depends on one element): a shard or cluster-DAG pin with an expiry keeps every expired pin listed after it pinned for ever")
+	}
+	if n == 0 {
+		r.Und("expiry-sweep", f.Pos(), "no Unpin call in StateSync")
+	}
+}
+
+func r118(c *Ctx, r *R) {
+	f := c.fn(r, "api/rest/client", "defaultClient.Allocations")
+	pt := c.namedType(r, "api", "PinType")
+	if f == nil || pt == nil {
+		return
+	}
+	listed := map[int64]bool{}
+	instrs(f, func(i ssa.Instruction) {
+		st, ok := i.(*ssa.Store)
+		if !ok {
+			return
+		}
+		if _, isIA := st.Addr.(*ssa.IndexAddr); !isIA {
+			return
+		}
+		if k, isK := st.Val.(*ssa.Const); isK && types.Identical(k.Type(), pt) && k.Value != nil {
+			if v, ok := constant.Int64Val(k.Value); ok {
+				listed[v] = true
+			}
+		}
+	})
+	for _, k := range declaredConsts(pt) {
+		if k.Name() == "AllType" || k.Name() == "BadType" {
+			continue
+		}
+		v, _ := constant.Int64Val(k.Val())
+		r.Check(listed[v], "client-filter:"+k.Name(), f.Pos(), "the client can ask for "+k.Name()+" allocations", "client.Allocations cannot express the pin type "+k.Name()+": the bit is dropped from the filter sent to the server (an empty filter means everything), so the caller gets a different set of pins than it asked for")
+	}
+}
+
+func r1310(c *Ctx, r *R) {
+	// (a) every AddParams field is written by the query reader
+	rfd, rpkg := c.decl(r, "api", "AddParamsFromQuery")
+	wfd, _ := c.decl(r, "api", "AddParams.ToQueryString")
+	nt := c.namedType(r, "api", "AddParams")
+	if rfd != nil && wfd != nil && nt != nil {
+		// writes by the reader and its helpers - not by the constructor of
+		// the defaults, which sets every field to a constant
+		wr := map[*types.Var]token.Pos{}
+		for _, d := range declClosure(rpkg, rfd) {
+			if strings.HasPrefix(d.Name.Name, "Default") {
+				continue
+			}
+			_, w := fieldsUsed(rpkg, d)
+			for k, v := range w {
+				wr[k] = v
+			}
+		}
+		rd, _ := fieldsUsedDeep(rpkg, wfd)
+		for _, fl := range flatFields(nt, "PinOptions") {
+			_, a := wr[fl]
+			_, b := rd[fl]
+			r.Check(a && b, "addparams-field:"+fl.Name(), fl.Pos(), "the option travels in the query form", fmt.Sprintf("AddParams.%s is not both restored by AddParamsFromQuery (%v) and written by ToQueryString (%v): the requested option is silently replaced by its default", fl.Name(), a, b))
+		}
+	}
+	// (b) the importer is configured from the request's fields as they are
+	f := c.fn(r, "adder", "newIpfsAdder")
+	if f == nil {
+		return
+	}
+	pnt := c.namedType(r, "api", "AddParams")
+	n := 0
+	instrs(f, func(i ssa.Instruction) {
+		st, ok := i.(*ssa.Store)
+		if !ok {
+			return
+		}
+		fa, ok := st.Addr.(*ssa.FieldAddr)
+		if !ok || !strings.HasSuffix(fa.X.Type().String(), "ipfsadd.Adder") {
+			return
+		}
+		name := fieldOfAddr(fa).Name()
+		has := false
+		if pnt != nil {
+			for _, pf := range flatFields(pnt, "") {
+				if pf.Name() == name {
+					has = true
+				}
+			}
+		}
+		if !has {
+			return // no request field of that name (Trickle <- Layout, Out, ...)
+		}
+		n++
+		fl, _ := fieldLoad(st.Val)
+		r.Check(fl != nil && fl.Name() == name && strings.HasSuffix(fl.Pkg().Path(), "/api"), "importer-option:"+name, st.Pos(), "the importer's "+name+" is the request's "+name, "newIpfsAdder derives the importer's "+name+" from something other than the request's "+name+" alone: defaults implied by other options were already applied when the request was parsed, re-deriving them here overrides what the client asked for explicitly (the root then differs from what the standard importer computes)")
+	})
+	if n == 0 {
+		r.Und("importer-options", f.Pos(), "newIpfsAdder copies no option from the request: shape not recognised")
+	}
+}
+
+func r1514(c *Ctx, r *R) {
+	n := 0
+	for _, pkg := range []string{"config"} {
+		sp := c.P.SSAPkg(pkg)
+		if sp == nil {
+			continue
+		}
+		c.P.RepoFuncs(func(f *ssa.Function) {
+			root := f
+			for root.Parent() != nil {
+				root = root.Parent()
+			}
+			if root.Pkg != sp || len(f.Blocks) == 0 {
+				return
+			}
+			errT := types.Universe.Lookup("error").Type()
+			for _, ci := range callsIn(f) {
+				call, ok := ci.(*ssa.Call)
+				if !ok {
+					continue
+				}
+				res := call.Common().Signature().Results()
+				if res.Len() == 0 || !types.Identical(res.At(res.Len()-1).Type(), errT) {
+					continue
+				}
+				b := call.Block()
+				var header *ssa.BasicBlock
+				for d := b; d != nil; d = d.Idom() {
+					if inNaturalLoop(b, d) {
+						header = d
+						break
+					}
+				}
+				if header == nil {
+					continue
+				}
+				// the error is carried round the loop in a phi of the header
+				// that is returned afterwards
+				for _, in := range header.Instrs {
+					phi, isPhi := in.(*ssa.Phi)
+					if !isPhi || !types.Identical(phi.Type(), errT) {
+						continue
+					}
+					carries := false
+					for _, e := range phi.Edges {
+						for _, l := range phiLeaves(e) {
+							if cc, idx := originCallLocal(l); cc == call && idx == res.Len()-1 {
+								carries = true
+							}
+						}
+					}
+					returned := false
+					for _, ret := range returnsOf(f) {
+						if len(ret.Results) == 0 {
+							continue
+						}
+						if stripLocal(retResult(ret, len(ret.Results)-1)) == ssa.Value(phi) {
+							returned = true
+						}
+					}
+					if !carries || !returned {
+						continue
+					}
+					n++
+					// the back edge must not be taken with a non-nil error
+					isErrNil := func(g Guard) bool {
+						return gNil(g, false, func(v ssa.Value) bool { cc, idx := originCallLocal(v); return cc == call && idx == res.Len()-1 })
+					}
+					leavesOnErr := true
+					seen := map[*ssa.BasicBlock]bool{}
+					var walk func(x *ssa.BasicBlock)
+					walk = func(x *ssa.BasicBlock) {
+						if seen[x] || !leavesOnErr {
+							return
+						}
+						seen[x] = true
+						iff, isIf := x.Instrs[len(x.Instrs)-1].(*ssa.If)
+						for i, sc := range x.Succs {
+							if isIf && len(x.Succs) == 2 {
+								cond, br := iff.Cond, i == 0
+								for {
+									if u, ok := cond.(*ssa.UnOp); ok && u.Op == token.NOT {
+										cond, br = u.X, !br
+										continue
+									}
+									break
+								}
+								if isErrNil(Guard{Cond: cond, Branch: br, If: iff}) {
+									continue
+								}
+							}
+							if sc == header {
+								leavesOnErr = false
+								return
+							}
+							if inNaturalLoop(sc, header) {
+								walk(sc)
+							}
+						}
+					}
+					walk(b)
+					r.Check(leavesOnErr, "loop-keeps-error:"+f.String(), call.Pos(), "the loop is left on the first error", f.String()+" carries the error of "+shortName(call)+" round a loop and returns it afterwards, but goes on iterating after a failure: a later success overwrites the error and a refused component configuration is silently replaced by its defaults")
+				}
+			}
+		})
+	}
+	if n == 0 {
+		r.OK("loop-keeps-error", token.NoPos, "no loader carries an error round a loop (errors are returned where they occur)")
+	}
+}
+
+func r178(c *Ctx, r *R) {
+	n := 0
+	for _, name := range []string{"commit", "AddPeer", "RmPeer"} {
+		f := c.fn(r, "consensus/raft", "Consensus."+name)
+		if f == nil {
+			continue
+		}
+		for _, b := range f.Blocks {
+			iff, ok := b.Instrs[len(b.Instrs)-1].(*ssa.If)
+			if !ok {
+				continue
+			}
+			bo, ok := iff.Cond.(*ssa.BinOp)
+			if !ok {
+				continue
+			}
+			fx, _ := fieldLoad(bo.X)
+			fy, _ := fieldLoad(bo.Y)
+			var atLeastOnce bool
+			switch {
+			case fy != nil && fy.Name() == "CommitRetries":
+				atLeastOnce = bo.Op == token.LEQ // i <= retries
+			case fx != nil && fx.Name() == "CommitRetries":
+				atLeastOnce = bo.Op == token.GEQ // retries >= i
+			default:
+				continue
+			}
+			n++
+			r.Check(atLeastOnce, "retry-loop:"+name, iff.Cond.Pos(), name+" makes CommitRetries+1 attempts", "Consensus."+name+" loops while i < CommitRetries: with commit_retries 0 (valid, and the value of a configuration that omits the key) the operation is never attempted and nil is returned - the caller believes the log entry / membership change was made")
+		}
+	}
+	if n == 0 {
+		r.Und("retry-loop", token.NoPos, "no retry loop bounded by CommitRetries found in commit/AddPeer/RmPeer")
+	}
+}
+
+// flatFields lists the fields of a struct type with embedded structs
+// flattened (an embedded struct named skip is left out as a whole).
+func flatFields(t types.Type, skip string) []*types.Var {
+	st := structOf(t)
+	if st == nil {
+		return nil
+	}
+	var out []*types.Var
+	for i := 0; i < st.NumFields(); i++ {
+		f := st.Field(i)
+		if f.Embedded() {
+			if f.Name() != skip {
+				out = append(out, flatFields(f.Type(), skip)...)
+			}
+			continue
+		}
+		out = append(out, f)
+	}
+	return out
 }
